@@ -69,8 +69,9 @@ import Proofs.Lemmas.C15ItpReal
     What is NOT proved.
     * Nothing about `Float`: overflow of a quotient with a non-zero divisor ("negligible leading coefficient") is
       invisible to a lawful scalar, where `1e-16` is simply a non-zero coefficient (DESIGN.md finding 5.f).
-    * The general quartic (`solve_quartic_inner`, LDLᵀ factorisation, rescaling, Newton polishing) is not transcribed;
-      `solveQuarticWith` takes it as the parameter `inner`, and no statement is made about `inner`.
+    * The general quartic (`solve_quartic_inner`, LDLᵀ factorisation, rescaling, Newton polishing): `solveQuarticWith` takes it
+      as the parameter `inner`, and no statement is made about `inner` HERE; it is transcribed in `Kurbo/Quartic.lean` and its
+      theorems (exact arithmetic, exact resolvent root assumed) are in `Proofs/C15Q.lean`.
     * The cubic theorems are for ℝ only (they need `sqrt`, `cbrt`, `sin`, `cos`, `atan2`); the returned list of
       `solveCubic` is not sorted (kurbo does not sort it) and, for a triple root, contains the root twice.
     * `solveItp_spec` assumes `b − a ≤ 2·ε·2^nmax` for the `nmax` the model computes (`itpNmax`); this is what the
